@@ -241,11 +241,57 @@ func cmpJSON(path string, exp, got interface{}) (where, class, detail string, eq
 		}
 		return "", "", "", true
 	default:
+		// a client that delivers numbers as json.Number or as Go integers delivers equal JSON values
+		if _, isNum := exp.(float64); isNum {
+			got = asFloat(got)
+		}
 		if !reflect.DeepEqual(exp, got) {
 			return path, leafClass(exp), fmt.Sprintf("expected %v (%s), got %v (%s)", exp, leafClass(exp), got, leafClass(got)), false
 		}
 		return "", "", "", true
 	}
+}
+
+// asFloat maps every Go representation of a JSON number to float64 (anything else is returned unchanged).
+func asFloat(v interface{}) interface{} {
+	if n, ok := v.(json.Number); ok {
+		if f, err := n.Float64(); err == nil {
+			return f
+		}
+		return v
+	}
+	rv := reflect.ValueOf(v)
+	switch rv.Kind() {
+	case reflect.Int, reflect.Int8, reflect.Int16, reflect.Int32, reflect.Int64:
+		return float64(rv.Int())
+	case reflect.Uint, reflect.Uint8, reflect.Uint16, reflect.Uint32, reflect.Uint64:
+		return float64(rv.Uint())
+	case reflect.Float32, reflect.Float64:
+		return rv.Float()
+	}
+	return v
+}
+
+// cmpMeta compares the _meta object of a result. No _meta and an empty _meta are the same thing on the wire
+// (the member is omitted when empty).
+func cmpMeta(exp, got map[string]interface{}) []diff {
+	if len(exp) == 0 {
+		if len(got) != 0 {
+			return []diff{{Symptom: "meta-differs", Part: "meta", Item: -1, Class: "absent", Detail: fmt.Sprintf("expected no _meta, got an object with %d members", len(got))}}
+		}
+		return nil
+	}
+	n, err := normalise(exp)
+	if err != nil {
+		return []diff{{Symptom: "meta-differs", Part: "meta", Item: -1, Class: "harness", Detail: "harness: cannot normalise expected value: " + err.Error()}}
+	}
+	if got == nil {
+		return []diff{{Symptom: "meta-differs", Part: "meta", Item: -1, Class: "lost", Detail: fmt.Sprintf("expected a _meta object with %d members, got none", len(exp))}}
+	}
+	if w, c, d, eq := cmpJSON("", n, map[string]interface{}(got)); !eq {
+		return []diff{{Symptom: "meta-differs", Part: "meta", Item: -1, Class: c, Detail: fmt.Sprintf("_meta at %q: %s", w, d)}}
+	}
+	return nil
 }
 
 // normalise: JSON round trip with the standard library only.
@@ -292,6 +338,7 @@ func cmpTool(exp, got *mcp.CallToolResult) []diff {
 			out = append(out, diff{Symptom: "structured-differs", Part: "structured", Item: -1, Class: c, Detail: fmt.Sprintf("at %q: %s", w, d)})
 		}
 	}
+	out = append(out, cmpMeta(exp.Meta, got.Meta)...)
 	return out
 }
 
@@ -316,6 +363,7 @@ func cmpPrompt(exp, got *mcp.GetPromptResult, descClass string) []diff {
 		}
 		out = append(out, cmpContent(i, exp.Messages[i].Content, got.Messages[i].Content)...)
 	}
+	out = append(out, cmpMeta(exp.Meta, got.Meta)...)
 	return out
 }
 
@@ -372,7 +420,11 @@ func describeValue(v interface{}) interface{} {
 		m := map[string]interface{}{"content": items, "isError": x.IsError}
 		if x.StructuredContent != nil {
 			b, _ := json.Marshal(x.StructuredContent)
-			m["structuredContent"] = preview(string(b))
+			m["structuredContent"] = previewN(string(b), 600)
+		}
+		if x.Meta != nil {
+			b, _ := json.Marshal(x.Meta)
+			m["_meta"] = previewN(string(b), 600)
 		}
 		return m
 	case *mcp.GetPromptResult:
@@ -383,7 +435,12 @@ func describeValue(v interface{}) interface{} {
 		for _, pm := range x.Messages {
 			msgs = append(msgs, map[string]interface{}{"role": pm.Role, "content": describeContent(pm.Content)})
 		}
-		return map[string]interface{}{"description": preview(x.Description), "messages": msgs}
+		m := map[string]interface{}{"description": preview(x.Description), "messages": msgs}
+		if x.Meta != nil {
+			b, _ := json.Marshal(x.Meta)
+			m["_meta"] = previewN(string(b), 600)
+		}
+		return m
 	case *mcp.ReadResourceResult:
 		if x == nil {
 			return nil
